@@ -221,7 +221,7 @@ def universe(tier):
              inst("G2", [g1v, inst("GE", [STRING, vec(prim("u8"))])]), inst("GI", [g1v]), inst("ZG", [prim("f64")]), inst("ZG", [prim("u128")]), inst("ZG", [inst("ZG", [inst("P1")])])]
     for g in gens:
         add(g)
-        wr = ([vec(g), opt(g)] if g.seq_ok else [opt(g)]) if tier == 'thorough' else ([vec(g)] if g.seq_ok else [opt(g)])
+        wr = [vec(g)] if g.seq_ok else [opt(g)]  # (the thorough tier once also took Option<G> and [G; 3]: dropped for link size)
         for u in wr:
             add(u)
     if tier == "thorough":
